@@ -120,6 +120,7 @@ def run_group(ctx, prop, lean=True, other_tiers=True):
                 _native(ctx, prop, fname, hook, failed_aux[0], aux=True)
     if lean and todo:
         run_lean(ctx)
+        run_conformance(ctx)
     # the other deductive tiers: effect contracts (frames / RNG typestate / exception escape) and UF-mode helper terms
     if not other_tiers:
         return per_func
@@ -200,6 +201,23 @@ def run_effects_subset(ctx, owner, contract_ids):
                            'clause': o.clause, 'witness_chain': list(wit)}, kind='obligation-no-input')
     p['by_backend']['effects-analysis'] = p['by_backend'].get('effects-analysis', 0) + nd
     ctx.assume('effect contracts {} (exception escape of the readers; explicit raise analysis + library table, see contracts/effects_contracts.py)'.format(', '.join(contract_ids)))
+
+
+def run_conformance(ctx):
+    """guard on pyvc's encoding of Python (conformance/cases.py): every micro-program's contract must be proved by pyvc
+    AND hold in CPython on random inputs; a failure is a checker error, never a verdict about cnfgen"""
+    t0 = time.time()
+    r = subprocess.run([os.path.join(core.VERIF, '.venv312', 'bin', 'python'), '-B', os.path.join(core.VERIF, 'tools', 'conformance.py')],
+                       capture_output=True, text=True, timeout=900, cwd=core.VERIF,
+                       env=dict(os.environ, PYTHONPATH=core.VERIF, PYTHONWARNINGS='ignore'))
+    last = (r.stdout.strip().splitlines() or ['?'])[-1]
+    ctx.section('engine_conformance', result=last, seconds=round(time.time() - t0, 1))
+    if r.returncode != 0:
+        raise RuntimeError('pyvc conformance suite failed (encoding of Python semantics):\n' + r.stdout[-1500:] + r.stderr[-500:])
+    import re as _re
+    m = _re.search(r'(\d+) cases', last)
+    ctx.proof['conformance_runs'] = int(m.group(1)) if m else 0
+    ctx.assume('pyvc encoding of Python checked by the conformance suite ({}): each micro-program proved by pyvc and run in CPython'.format(last))
 
 
 def run_lean(ctx):
